@@ -125,15 +125,16 @@ type hop struct {
 
 // TunnelSet runs and observes a set of tunnels on a mesh.
 type TunnelSet struct {
-	m             *Mesh
-	T             []*Tunnel
-	byPort        map[int]*Tunnel
-	markers       map[uint64]int // 8-byte plaintext markers -> tunnel id (C04)
-	byEph         map[[32]byte]*Tunnel
-	group         simrt.Group
-	OnOpen        func(t *Tunnel) // called in the client goroutine right after a successful open
-	SlowConnects  bool
-	connectDelays map[string]time.Duration
+	m               *Mesh
+	T               []*Tunnel
+	byPort          map[int]*Tunnel
+	markers         map[uint64]int // 8-byte plaintext markers -> tunnel id (C04)
+	byEph           map[[32]byte]*Tunnel
+	group           simrt.Group
+	OnOpen          func(t *Tunnel) // called in the client goroutine right after a successful open
+	holdICMPReplies bool
+	SlowConnects    bool
+	connectDelays   map[string]time.Duration
 	// wire observations
 	MaxPayload     int
 	PlainOnTransit int
